@@ -61,6 +61,19 @@ var (
 	kEnum = kind{k: "enum"}
 )
 
+// mapKey: the key kind of a Go map (t[0] when given; a string otherwise)
+func mapKey(k kind) kind {
+	if len(k.t) > 0 {
+		return k.t[0]
+	}
+	return kStr
+}
+
+// listOf: pointer-like names that stand for a Go slice that may be nil (Option (List _))
+var listOf = map[string]kind{
+	"AFTResultList": {k: "list", s: "AFTResultC", elemNN: true},
+}
+
 func kPtr(s string) kind   { return kind{k: "ptr", s: s} }
 func kPtrNN(s string) kind { return kind{k: "ptr", s: s, nn: true} }
 
@@ -102,11 +115,34 @@ var schemas = map[string][]field{
 	"ModifyRequestF":    {{"Operation", "Operation", kind{k: "list", s: "AFTOperation", elemNN: true}}},
 	"gRIBIConnection":   {{"redundMode", "redundMode", kEnum}},
 	"ModifyRequest":     {{"Params", "Params", kPtr("SessionParameters")}, {"ElectionId", "ElectionId", kPtr("Uint128")}, {"Operation", "Operation", kPtr("Unit")}},
+	// the client (client/gribiclient.go)
+	"IPv4EntryC":  {{"Prefix", "Prefix", kStr}},
+	"IPv6EntryC":  {{"Prefix", "Prefix", kStr}},
+	"LabelEntryC": {{"LabelUint64", "LabelUint64", kNat}},
+	"NHGEntryC":   {{"Id", "Id", kNat}},
+	"NHEntryC":    {{"Index", "Index", kNat}},
+	"AFTOperationC": {{"Id", "Id", kNat}, {"Op", "Op", kEnum}, {"Entry", "Entry", kind{k: "oneof", s: "AFTEntry"}}},
+	"ModifyRequestC": {{"Operation", "Operation", kind{k: "list", s: "AFTOperationC", elemNN: true}}, {"ElectionId", "ElectionId", kPtr("Uint128")}, {"Params", "Params", kPtr("SessionParameters")}},
+	"AFTErrorDetails": {{"ErrorMessage", "ErrorMessage", kStr}},
+	"AFTResultC":      {{"Id", "Id", kNat}, {"Status", "Status", kEnum}, {"ErrorDetails", "ErrorDetails", kPtr("AFTErrorDetails")}},
+	"SessionParametersResult": {{"Status", "Status", kEnum}},
+	"ModifyResponseC": {{"Result", "Result", kPtr("AFTResultList")}, {"ElectionId", "ElectionId", kPtr("Uint128")}, {"SessionParamsResult", "SessionParamsResult", kPtr("SessionParametersResult")}},
+	// PendingOp.Op is never nil: addPendingOp stores an operation it has dereferenced
+	"PendingOp":              {{"Timestamp", "Timestamp", kInt}, {"Op", "Op", kPtrNN("AFTOperationC")}},
+	"ElectionReqDetails":     {{"Timestamp", "Timestamp", kInt}, {"ID", "ID", kPtr("Uint128")}},
+	"SessionParamReqDetails": {{"Timestamp", "Timestamp", kInt}, {"Outgoing", "Outgoing", kPtr("SessionParameters")}},
+	"OpDetailsResults": {{"Type", "Type_", kEnum}, {"NextHopIndex", "NextHopIndex", kNat}, {"NextHopGroupID", "NextHopGroupID", kNat}, {"IPv4Prefix", "IPv4Prefix", kStr}, {"IPv6Prefix", "IPv6Prefix", kStr}, {"MPLSLabel", "MPLSLabel", kNat}},
+	"COpResult": {{"Timestamp", "Timestamp", kInt}, {"Latency", "Latency", kInt}, {"CurrentServerElectionID", "CurrentServerElectionID", kPtr("Uint128")}, {"SessionParameters", "SessionParameters", kPtr("SessionParametersResult")},
+		{"OperationID", "OperationID", kNat}, {"ClientError", "ClientError", kStr}, {"ServerError", "ServerError", kStr}, {"ProgrammingResult", "ProgrammingResult", kEnum}, {"Details", "Details", kPtr("OpDetailsResults")}},
 }
 
 var leanStruct = map[string]string{
 	"Uint128": "U128", "electionDetails": "ElectionDetails", "clientParams": "ClientParams", "clientState": "ClientState",
 	"SessionParameters": "SessionParameters", "FlushRequest": "FlushRequest", "ModifyRequest": "ModifyRequest", "Unit": "Unit", "OpResult": "OpResult", "AFTOperation": "AFTOperation", "String": "String", "ModifyRequestF": "ModifyRequestF", "gRIBIConnection": "GRIBIConnection", "GetRequestG": "GetRequestG", "CandRIB": "CandRIB", "CandAfts": "CandAfts", "CandNH": "CandNH", "CandNHG": "CandNHG", "CandTop": "CandTop",
+	"IPv4EntryC": "IPv4EntryC", "IPv6EntryC": "IPv6EntryC", "LabelEntryC": "LabelEntryC", "NHGEntryC": "NHGEntryC", "NHEntryC": "NHEntryC", "AFTOperationC": "AFTOperationC", "ModifyRequestC": "ModifyRequestC",
+	"AFTErrorDetails": "AFTErrorDetails", "AFTResultC": "AFTResultC", "SessionParametersResult": "SessionParametersResult", "ModifyResponseC": "ModifyResponseC", "PendingOp": "PendingOp",
+	"ElectionReqDetails": "ElectionReqDetails", "SessionParamReqDetails": "SessionParamReqDetails", "OpDetailsResults": "OpDetailsResults", "COpResult": "COpResult",
+	"AFTResultList": "(List AFTResultC)", "Bool": "Bool",
 }
 
 func leanType(k kind) string {
@@ -137,7 +173,7 @@ func leanType(k kind) string {
 	case "set":
 		return "List Nat"
 	case "map":
-		return "(Map String " + leanStruct[k.s] + ")"
+		return "(Map " + leanType(mapKey(k)) + " " + leanStruct[k.s] + ")"
 	case "aftresult":
 		return "(Nat × AftSt)"
 	case "list":
@@ -235,6 +271,13 @@ type oneofCase struct {
 var oneofs = map[string][]oneofCase{
 	"FlushNI": {{"*spb.FlushRequest_All", "FlushNI.All", nil}, {"*spb.FlushRequest_Name", "FlushNI.Name", []field{{"Name", "Name", kStr}}}},
 	"GetNI":   {{"*spb.GetRequest_All", "GetNI.All", nil}, {"*spb.GetRequest_Name", "GetNI.Name", []field{{"Name", "Name", kStr}}}},
+	"AFTEntry": {
+		{"*spb.AFTOperation_Ipv4", "AFTEntry.Ipv4", []field{{"Ipv4", "Ipv4", kPtr("IPv4EntryC")}}},
+		{"*spb.AFTOperation_Ipv6", "AFTEntry.Ipv6", []field{{"Ipv6", "Ipv6", kPtr("IPv6EntryC")}}},
+		{"*spb.AFTOperation_Mpls", "AFTEntry.Mpls", []field{{"Mpls", "Mpls", kPtr("LabelEntryC")}}},
+		{"*spb.AFTOperation_NextHopGroup", "AFTEntry.NextHopGroup", []field{{"NextHopGroup", "NextHopGroup", kPtr("NHGEntryC")}}},
+		{"*spb.AFTOperation_NextHop", "AFTEntry.NextHop", []field{{"NextHop", "NextHop", kPtr("NHEntryC")}}},
+	},
 }
 
 type env struct {
@@ -342,6 +385,9 @@ func init() {
 		knownCtors["FlushResult."+c] = true
 	}
 	for _, c := range strings.Fields("AFTType_INVALID AFTType_ALL AFTType_IPV4 AFTType_IPV6 AFTType_MPLS AFTType_NEXTHOP AFTType_NEXTHOP_GROUP AFTType_MAC AFTType_POLICY_FORWARDING") {
+		knownCtors[c] = true
+	}
+	for _, c := range strings.Fields("AFTResult_UNSET AFTResult_FAILED AFTResult_RIB_PROGRAMMED AFTResult_FIB_PROGRAMMED AFTResult_FIB_FAILED") {
 		knownCtors[c] = true
 	}
 	for _, c := range strings.Fields("AFTOperation_INVALID AFTOperation_ADD AFTOperation_REPLACE AFTOperation_DELETE") {
@@ -490,7 +536,7 @@ func trExpr(e ast.Expr, en env) val {
 			return x
 		}
 		if id, ok := v.X.(*ast.Ident); ok && id.Name == "spb" {
-			for _, p := range []string{"SessionParameters_", "AFTOperation_", "AFTType_"} {
+			for _, p := range []string{"SessionParameters_", "AFTOperation_", "AFTType_", "AFTResult_"} {
 				if strings.HasPrefix(v.Sel.Name, p) {
 					return val{lean: knownCtor(v.Pos(), v.Sel.Name), kd: kEnum}
 				}
@@ -563,6 +609,14 @@ func trExpr(e ast.Expr, en env) val {
 			a, b := trExpr(v.X, en), trExpr(v.Y, en)
 			if a.kd.k == "nat" && (b.kd.k == "nat" || b.kd.k == "int") {
 				return val{lean: "(" + a.lean + " + " + b.lean + ")", kd: kNat}
+			}
+			if a.kd.k == "int" && b.kd.k == "int" {
+				return val{lean: "(" + a.lean + " + " + b.lean + ")", kd: kInt}
+			}
+		case token.SUB:
+			a, b := trExpr(v.X, en), trExpr(v.Y, en)
+			if a.kd.k == "int" && b.kd.k == "int" {
+				return val{lean: "(" + a.lean + " - " + b.lean + ")", kd: kInt}
 			}
 		}
 		fail(v.Pos(), "binary %s", v.Op)
@@ -858,6 +912,9 @@ func needsGeneralLoop(list []ast.Stmt) bool {
 			case *ast.BranchStmt:
 				general = true
 			case *ast.CallExpr:
+				if statefulCallee(x) != nil {
+					general = true
+				}
 				if cur != nil {
 					fn := render(x.Fun)
 					o, ok := cur.oracles[fn]
@@ -903,6 +960,12 @@ func loopState(list []ast.Stmt, en env) []string {
 				}
 			case *ast.IncDecStmt:
 				lhs = []ast.Expr{x.X}
+			case *ast.CallExpr:
+				if sp := statefulCallee(x); sp != nil {
+					for _, st := range sp.state {
+						add(st.goExpr)
+					}
+				}
 			}
 			for _, l := range lhs {
 				switch lv := l.(type) {
@@ -929,9 +992,10 @@ func trLoop(v *ast.RangeStmt, en env, next cont) string {
 	if v.Tok != token.DEFINE {
 		fail(v.Pos(), "range form")
 	}
-	l := trExpr(v.X, en)
+	l := rangeSubject(v.X, en)
 	en = absorb(en)
 	isMap := l.kd.k == "map"
+	mapKeyKind := mapKey(l.kd)
 	if isMap {
 		// a Go map of structs: a list of (key, value) pairs in an arbitrary order
 		l = val{lean: l.lean, kd: kind{k: "list", s: l.kd.s, keyed: true, elemNN: true}}
@@ -1026,9 +1090,11 @@ func trLoop(v *ast.RangeStmt, en env, next cont) string {
 		inner.bound[pv] = xn + ".2"
 		inner.declare(xv.Name, val{lean: "(some " + xn + ".2)", kd: elemKind, path: pv})
 		if keyName != "" {
-			inner.declare(keyName, val{lean: xn + ".1", kd: kStr})
+			inner.declare(keyName, val{lean: xn + ".1", kd: mapKeyKind})
 			keyName = ""
 		}
+	} else if l.kd.s == "Bool" {
+		inner.declare(xv.Name, val{lean: xn, kd: kBool})
 	} else if l.kd.s != "String" {
 		inner.declare(xv.Name, val{lean: xn, kd: elemKind, path: fresh("path")})
 		if l.kd.elemNN {
@@ -1069,11 +1135,11 @@ func trLoop(v *ast.RangeStmt, en env, next cont) string {
 	body := trStmts(v.Body.List, inner, func(e env) string { return recur(e.pop()) })
 	loopConts = loopConts[:len(loopConts)-1]
 	elemT := leanStruct[l.kd.s]
-	if !l.kd.elemNN && l.kd.s != "String" {
+	if !l.kd.elemNN && l.kd.s != "String" && l.kd.s != "Bool" {
 		elemT = "Option " + elemT
 	}
 	if isMap {
-		elemT = "String × " + elemT
+		elemT = leanType(mapKeyKind) + " × " + elemT
 	}
 	sig := "List (" + elemT + ")"
 	for _, t := range types {
@@ -1088,6 +1154,28 @@ func trLoop(v *ast.RangeStmt, en env, next cont) string {
 	}
 	def := fmt.Sprintf("let rec %s : %s := fun %s %s => (match %s%s with\n| []%s => %s\n| %s :: %s%s => %s)", goName, sig, lv, strings.Join(binders, " "), lv, cpats, cpats, base, xn, rest, cpats, body)
 	return wrapLets(lets, "("+def+";\n"+goName+" "+atom(l.lean)+" "+strings.Join(inits, " ")+")")
+}
+
+// rangeSubject: the list a range statement walks: a list, a map, a slice that may be nil, or a
+// literal []bool{..}
+func rangeSubject(e ast.Expr, en env) val {
+	if cl, ok := e.(*ast.CompositeLit); ok {
+		if at, ok := cl.Type.(*ast.ArrayType); ok && render(at.Elt) == "bool" {
+			var els []string
+			for _, el := range cl.Elts {
+				els = append(els, trBool(el, en))
+			}
+			return val{lean: "[" + strings.Join(els, ", ") + "]", kd: kind{k: "list", s: "Bool", elemNN: true}}
+		}
+	}
+	l := trExpr(e, en)
+	if l.kd.k == "ptr" {
+		if lk, ok := listOf[l.kd.s]; ok {
+			// ranging over a nil slice is ranging over an empty one
+			return val{lean: "(" + atom(l.lean) + ".getD [])", kd: lk}
+		}
+	}
+	return l
 }
 
 func atom2(s string) string {
@@ -1180,7 +1268,12 @@ func trCall(c *ast.CallExpr, en env) []val {
 			fail(c.Pos(), "append of %s to %s", b.kd, a.kd)
 		}
 		el := b.lean
-		if b.kd.k == "ptr" && !b.kd.nn {
+		if a.kd.optElems {
+			// a list of pointers that may be nil
+			if b.kd.nn {
+				el = "(some " + atom(b.lean) + ")"
+			}
+		} else if b.kd.k == "ptr" && !b.kd.nn {
 			// the list holds the structs themselves: the appended pointer must be non-nil
 			bn, ok := en.bound[b.path]
 			if !ok {
@@ -1343,19 +1436,56 @@ func trCall(c *ast.CallExpr, en env) []val {
 					args = append(args, atom(x.lean))
 				}
 			}
-			if len(sp.oracleParams) > 0 || len(sp.state) > 0 || sp.effects {
-				fail(c.Pos(), "call of %s, which has oracles, state or effects, cannot be inlined", fn)
+			if sp.effects || sp.loop || sp.errChan {
+				fail(c.Pos(), "call of %s, which has effects, cannot be inlined", fn)
+			}
+			// the callee's oracle parameters are the caller's of the same name; its state fields
+			// are state fields of the caller (their current values go in, the new ones come out)
+			for _, op := range sp.oracleParams {
+				x, ok := en.vars[op.goName]
+				if !ok || cur == nil {
+					fail(c.Pos(), "call of %s: the caller has no oracle parameter %s", fn, op.goName)
+				}
+				if op.nonnil {
+					b, ok := en.bound[x.path]
+					if !ok {
+						fail(c.Pos(), "call of %s: oracle parameter %s must be non-nil", fn, op.goName)
+					}
+					args = append(args, atom(b))
+				} else {
+					args = append(args, atom(x.lean))
+				}
+			}
+			if len(pendingState) > 0 {
+				fail(c.Pos(), "two calls of functions with state in one expression")
+			}
+			for _, st := range sp.state {
+				x, ok := en.vars[st.goExpr]
+				if !ok || cur == nil || !cur.isState(st.goExpr) {
+					fail(c.Pos(), "call of %s: its state field %s is not a state field of the caller", fn, st.goExpr)
+				}
+				args = append(args, atom(x.lean))
 			}
 			app := "(" + sp.leanName + " " + strings.Join(args, " ") + ")"
 			n := fresh("r")
 			pendingLets = append(pendingLets, fmt.Sprintf("let %s := %s", n, app))
 			var out []val
+			total := len(sp.rets) + len(sp.state)
 			for j, rk := range sp.rets {
 				proj := n
-				if len(sp.rets) > 1 {
-					proj = n + "." + projPath(j, len(sp.rets))
+				if total > 1 {
+					proj = n + "." + projPath(j, total)
 				}
 				out = append(out, val{lean: proj, kd: retKind(rk), path: fresh("path")})
+			}
+			for j, st := range sp.state {
+				proj := n
+				if total > 1 {
+					proj = n + "." + projPath(len(sp.rets)+j, total)
+				}
+				sn := fresh(lastName(st.goExpr))
+				pendingLets = append(pendingLets, fmt.Sprintf("let %s := %s", sn, proj))
+				pendingState[st.goExpr] = val{lean: sn, kd: st.kd, path: st.goExpr}
 			}
 			return out
 		}
@@ -1379,14 +1509,51 @@ func effsExpr(en env) string {
 	return "(" + en.effBase + " ++ " + lit + ")"
 }
 
+// pendingState: state fields changed by a call of a translated function that has state, until
+// absorb moves them into an environment
+var pendingState = map[string]val{}
+
 func absorb(en env) env {
-	if len(oracleEffects) == 0 {
+	if len(oracleEffects) == 0 && len(pendingState) == 0 {
 		return en
 	}
 	e := en.clone()
 	e.effects = append(e.effects, oracleEffects...)
 	oracleEffects = nil
+	for k, v := range pendingState {
+		if v.kd.k == "map" {
+			forkEntries(&e, k)
+		}
+		e.vars[k] = v
+		// what was known about the entries of a map the callee may have changed is forgotten
+		for p := range e.bound {
+			if strings.HasPrefix(p, k+"[") {
+				delete(e.bound, p)
+			}
+		}
+		for p := range e.isNil {
+			if strings.HasPrefix(p, k+"[") {
+				delete(e.isNil, p)
+			}
+		}
+	}
+	pendingState = map[string]val{}
 	return e
+}
+
+// statefulCallee: the translated function (with state) that the call expression invokes, if any
+func statefulCallee(c *ast.CallExpr) *fnSpec {
+	fn := render(c.Fun)
+	for i := range specs {
+		sp := &specs[i]
+		if cur != nil && sp.file != cur.file {
+			continue
+		}
+		if sp.callAs == fn && len(sp.state) > 0 && !sp.recvIsParam {
+			return sp
+		}
+	}
+	return nil
 }
 
 func containsInt(l []int, x int) bool {
@@ -1417,7 +1584,12 @@ func retKind(r string) kind {
 	if strings.HasPrefix(r, "ptr:") {
 		return kPtr(strings.TrimPrefix(r, "ptr:"))
 	}
+	if strings.HasPrefix(r, "ptrnn:") {
+		return kPtrNN(strings.TrimPrefix(r, "ptrnn:"))
+	}
 	switch r {
+	case "nat":
+		return kNat
 	case "bool":
 		return kBool
 	case "err":
@@ -1666,13 +1838,87 @@ func bindResult(en *env, name string, v val, define bool, pos token.Pos) {
 	}
 }
 
+// forkEntries: the map r is about to lose or replace entries (delete, m[k] = p, a call that may do
+// either). A variable that holds a pointer read from the map earlier keeps pointing at the old
+// struct, so what is known about it must no longer be tied to the map's entry: every path below
+// r[..] held by a variable (or by an ok / err pair) moves to a fresh root, with what was known.
+func forkEntries(en *env, r string) {
+	pfx := r + "["
+	roots := map[string]string{}
+	split := func(p string) (string, string) {
+		depth := 0
+		for i := len(pfx) - 1; i < len(p); i++ {
+			switch p[i] {
+			case '[':
+				depth++
+			case ']':
+				depth--
+				if depth == 0 {
+					return p[:i+1], p[i+1:]
+				}
+			}
+		}
+		return p, ""
+	}
+	move := func(old string) string {
+		entry, rest := split(old)
+		root, ok := roots[entry]
+		if !ok {
+			root = fresh("path")
+			roots[entry] = root
+			for k, b := range en.bound {
+				if k == entry || strings.HasPrefix(k, entry+".") {
+					en.bound[root+strings.TrimPrefix(k, entry)] = b
+				}
+			}
+			for k, b := range en.isNil {
+				if b && (k == entry || strings.HasPrefix(k, entry+".")) {
+					en.isNil[root+strings.TrimPrefix(k, entry)] = true
+				}
+			}
+		}
+		return root + rest
+	}
+	for name, v := range en.vars {
+		if strings.HasPrefix(v.path, pfx) {
+			v.path = move(v.path)
+			en.vars[name] = v
+		}
+	}
+	for k, p := range okPairs {
+		if strings.HasPrefix(p.path, pfx) {
+			p.path = move(p.path)
+			okPairs[k] = p
+		}
+	}
+	for k, p := range errPairs {
+		if strings.HasPrefix(p.path, pfx) {
+			p.path = move(p.path)
+			errPairs[k] = p
+		}
+	}
+}
+
 // mapUpdate: the state variable mexpr (a map) gets the binding key -> the struct newVal (a Lean
 // term of the struct type); what was known about other entries of the map is forgotten
-func mapUpdate(en *env, mexpr ast.Expr, key ast.Expr, newVal string, pos token.Pos) {
+func mapUpdate(en *env, mexpr ast.Expr, key ast.Expr, newVal string, replaced bool, pos token.Pos) {
 	r := render(mexpr)
 	m, ok := en.vars[r]
 	if !ok || m.kd.k != "map" || cur == nil || !cur.isState(r) {
 		fail(pos, "update of %s, which is not a map-valued state field", r)
+	}
+	if replaced {
+		// m[k] = p: pointers read from the map before keep pointing at the old structs
+		forkEntries(en, r)
+	} else {
+		// a write through a pointer held in the map: every holder of that pointer sees it; a
+		// variable read with another key might hold the same pointer, which is not tracked
+		entry := r + "[" + render(key) + "]"
+		for name, v := range en.vars {
+			if strings.HasPrefix(v.path, r+"[") && v.path != entry && !strings.HasPrefix(v.path, entry+".") {
+				fail(pos, "write through %s while %s holds a pointer read from the same map with another key", entry, name)
+			}
+		}
 	}
 	k := trExpr(key, *en)
 	n := fresh(lastName(r))
@@ -1768,7 +2014,7 @@ func trAssign(a *ast.AssignStmt, en env) env {
 						}
 						nv = vb
 					}
-					mapUpdate(&en, ix.X, ix.Index, "{ "+b+" with "+f.lean+" := "+nv+" }", a.Pos())
+					mapUpdate(&en, ix.X, ix.Index, "{ "+b+" with "+f.lean+" := "+nv+" }", false, a.Pos())
 					break
 				}
 			}
@@ -1781,7 +2027,7 @@ func trAssign(a *ast.AssignStmt, en env) env {
 							fail(a.Pos(), "assignment through %s, which may be nil", id.Name)
 						}
 						f := fieldOf(x.kd.s, lv.Sel.Name, a.Pos())
-						mapUpdate(&en, ix.X, ix.Index, "{ "+b+" with "+f.lean+" := "+vals[i].lean+" }", a.Pos())
+						mapUpdate(&en, ix.X, ix.Index, "{ "+b+" with "+f.lean+" := "+vals[i].lean+" }", false, a.Pos())
 						break
 					}
 					fieldOf(x.kd.s, lv.Sel.Name, a.Pos())
@@ -1805,7 +2051,7 @@ func trAssign(a *ast.AssignStmt, en env) env {
 				if v.kd.k != "ptr" || v.kd.s != mv.kd.s || !bound {
 					fail(a.Pos(), "the value stored in %s must be a non-nil pointer to %s", render(l), mv.kd.s)
 				}
-				mapUpdate(&en, lv.X, lv.Index, b, a.Pos())
+				mapUpdate(&en, lv.X, lv.Index, b, true, a.Pos())
 				break
 			}
 			id, ok := lv.X.(*ast.Ident)
@@ -1847,6 +2093,7 @@ func trStmts(list []ast.Stmt, en env, k cont) string {
 				}
 				k := trExpr(c.Args[1], en)
 				e1 := en.clone()
+				forkEntries(&e1, r)
 				n := fresh(lastName(r))
 				lets := append(takeLets(), fmt.Sprintf("let %s := Map.erase %s %s", n, atom(m.lean), atom(k.lean)))
 				e1.vars[r] = val{lean: n, kd: m.kd, path: m.path}
@@ -2199,7 +2446,28 @@ func trRetVal(e ast.Expr, want string, en env) string {
 		}
 		return x.lean
 	}
+	if strings.HasPrefix(want, "ptrnn:") {
+		// the function never returns nil: the struct itself is returned
+		x := trExpr(e, en)
+		if x.kd.k != "ptr" || x.kd.s != strings.TrimPrefix(want, "ptrnn:") {
+			fail(e.Pos(), "returned value of kind %s, %s expected", x.kd, want)
+		}
+		if x.kd.nn {
+			return x.lean
+		}
+		b, ok := en.bound[x.path]
+		if !ok {
+			fail(e.Pos(), "the function is declared never to return nil, and %s may be nil", render(e))
+		}
+		return b
+	}
 	switch want {
+	case "nat":
+		x := trExpr(e, en)
+		if x.kd.k != "nat" && x.kd.k != "int" {
+			fail(e.Pos(), "returned value of kind %s, a number expected", x.kd)
+		}
+		return x.lean
 	case "bool":
 		return trBool(e, en)
 	case "err":
@@ -2513,20 +2781,34 @@ func checkRepoStructs(files map[string]*ast.File) []string {
 			return "bool"
 		case "str":
 			return "string"
+		case "int":
+			return "int64"
+		case "nat":
+			return "uint64"
 		case "ptr":
-			if k.s == "Uint128" {
-				return "*spb.Uint128"
+			switch k.s {
+			case "Uint128", "SessionParameters", "SessionParametersResult":
+				return "*spb." + k.s
+			case "AFTOperationC":
+				return "*spb.AFTOperation"
 			}
 			return "*" + k.s
 		}
 		return "?"
 	}
-	for _, name := range []string{"electionDetails", "clientParams", "clientState"} {
+	type decl struct{ file, name string }
+	for _, d := range []decl{{"server/server.go", "electionDetails"}, {"server/server.go", "clientParams"}, {"server/server.go", "clientState"},
+		{"client/gribiclient.go", "PendingOp"}, {"client/gribiclient.go", "ElectionReqDetails"}, {"client/gribiclient.go", "SessionParamReqDetails"},
+		{"client/gribiclient.go", "OpDetailsResults"}, {"client/gribiclient.go", "COpResult"}} {
+		name := d.name
 		found := false
-		for _, f := range files {
+		for fname, f := range files {
+			if fname != d.file {
+				continue
+			}
 			ast.Inspect(f, func(n ast.Node) bool {
 				ts, ok := n.(*ast.TypeSpec)
-				if !ok || ts.Name.Name != name {
+				if !ok || ts.Name.Name != strings.TrimPrefix(name, "C") {
 					return true
 				}
 				st, ok := ts.Type.(*ast.StructType)
@@ -2534,14 +2816,29 @@ func checkRepoStructs(files map[string]*ast.File) []string {
 					return true
 				}
 				found = true
+				enumField := map[string]bool{}
+				for _, fl := range schemas[name] {
+					if fl.kd.k == "enum" {
+						enumField[fl.goName] = true
+					}
+				}
 				var got []string
 				for _, fl := range st.Fields.List {
 					for _, n := range fl.Names {
+						if enumField[n.Name] && strings.Contains(render(fl.Type), ".") {
+							// an enumeration of another package: represented by its number
+							got = append(got, n.Name+" enum")
+							continue
+						}
 						got = append(got, n.Name+" "+render(fl.Type))
 					}
 				}
 				var want []string
 				for _, fl := range schemas[name] {
+					if fl.kd.k == "enum" {
+						want = append(want, fl.goName+" enum")
+						continue
+					}
 					want = append(want, fl.goName+" "+goKind(fl.kd))
 				}
 				sort.Strings(got)
